@@ -137,7 +137,9 @@ PeerDataRefused(s) ==
     /\ UNCHANGED <<ca, rdelta, unread, cu, su, rst>>
 PeerDataTaken(s, len, pad, es, accept) ==
     /\ ca' = ca - len
-    /\ IF rst[s] = "open" /\ accept
+    /\ IF (rst[s] = "open" /\ accept) \/ (rst[s] = "noBody" /\ accept /\ len = pad)
+       \* (a frame of pure padding carries nothing the closed body could refuse: its padding
+       \*  is credited at both levels like on an open stream)
        THEN /\ rdelta' = [rdelta EXCEPT ![s] = @ - len]
             /\ unread' = [unread EXCEPT ![s] = @ + (len - pad)]
             /\ Refund(pad)
@@ -147,7 +149,11 @@ PeerDataTaken(s, len, pad, es, accept) ==
             /\ Refund(len)
             /\ su' = su
     /\ rst' = [rst EXCEPT ![s] = IF es /\ @ \in {"open", "noBody"} THEN "ended" ELSE @]
-    /\ owe' = owe
+    (* DATA after P's own END_STREAM is P's protocol violation (RFC 9113 5.1): E refuses it with *)
+    (* an error of its choosing (STREAM_CLOSED, or FLOW_CONTROL_ERROR if it still counts the     *)
+    (* frame against the stream window).  The "late" mark is never judged; it only makes a      *)
+    (* FLOW_CONTROL reaction on s admissible.                                                    *)
+    /\ owe' = IF rst[s] = "ended" /\ len > 0 THEN owe \cup {[s |-> s, h |-> "late"]} ELSE owe
 PeerData(s, len, pad, es, accept) ==
     /\ len >= 0 /\ pad >= 0 /\ pad <= len
     /\ IF len > ca \/ (StreamChecked(s, accept) /\ len > RW(s) + su[s])
